@@ -124,13 +124,13 @@ def mk_pass(sem, admissible, seen):
 def run(prog, world, sem, rep):
     rep.rule("C10.a", "every success exit of a privileged message variant (transitively through delegating calls) is reachable "
              "only through an edge on which info.sender == designated principal was observed; every variant has a table row", 34)
-    rep.rule("C10.b", "storage cells holding principals are written only by instantiate and by their designated guarded variants", 28)
+    rep.rule("C10.b", "storage cells holding principals are written only by instantiate and by their designated guarded variants", 18)
     rep.rule("C10.c", "two-step ownership: the owner field is only assigned from the nominee cell in the nominee-guarded arm; "
-             "the nominee cell only from the message in the owner-guarded arm; no other writer changes the owner field", 26)
+             "the nominee cell only from the message in the owner-guarded arm; no other writer changes the owner field", 16)
     rep.rule("C10.f", "ownership messages always take effect: no success exit of SetOwner without the nominee cell having been written, none of "
              "AcceptOwnership without the owner field having been written (a silently skipped update leaves a withdrawn nominee able to accept)", 8)
     rep.rule("C10.d", "hub token addresses are write-once: every write of Config.{bsei,stsei}_token_contract either preserves the "
-             "stored value or is reachable only when is_some() on that field was observed false", 16)
+             "stored value or is reachable only when is_some() on that field was observed false", 4)
     rep.rule("C10.e", "token instantiate wires minter and hub cell to msg.hub_contract; cw20-legacy never reassigns TokenInfo.mint", 7)
 
     per_variant_writes = {}
